@@ -8,7 +8,9 @@ impl      : real SoftwareSwitch + OFConnection + IOWorker (harness/swnet.py); ev
             request, or the whole sequence in arbitrary chunks), everything the switch writes is decoded here with
             `struct` against the OpenFlow 1.0 layouts (not with the library's decoders).
 oracle    : the property on those observables only (one reply per request kind with the request's xid, none for silent
-            kinds, order, error codes of the standard, no internal failure, connection alive).
+            kinds, order, error codes of the standard, no internal failure, connection alive; the data of a table / flow /
+            aggregate statistics reply — active, lookup, matched and per-entry packet counts — against the oracle's own
+            count of the packets the history sent through the table).
 """
 import os, sys, json, struct, copy
 import common, poxenv, ofgen
@@ -71,8 +73,8 @@ def decode_one(t, xid, body):
             flags, miss = struct.unpack_from("!HH", body, 0)
             return {"t": "get_config_reply", "xid": xid, "flags": flags, "miss": miss}
         if t == 10:
-            bid, = struct.unpack_from("!L", body, 0)
-            return {"t": "packet_in", "bid": None if bid == U32 else bid}
+            bid, _tl, inp = struct.unpack_from("!LHH", body, 0)
+            return {"t": "packet_in", "bid": None if bid == U32 else bid, "inp": inp}
         if t == 11:
             cookie, prio, reason = struct.unpack_from("!QHB", body, 40)
             return {"t": "flow_removed", "prio": prio, "cookie": cookie, "reason": reason}
@@ -197,7 +199,9 @@ class C13(Check):
                 "Pox.C13.unhandled_type_fails",
                 "Pox.C13.history_answered_partial", "Pox.C13.history_events_partial", "Pox.C13.rejected_answered", "Pox.C13.runEv_msgs",
                 "Pox.C13.step_fit", "Pox.C13.allAnswered_index", "Pox.C13.history_barrier", "Pox.C13.step_cases", "Pox.C13.history_ident",
-                "Pox.C13.features_after_history", "Pox.C13.config_after_history"]
+                "Pox.C13.features_after_history", "Pox.C13.config_after_history",
+                "Pox.C13.table_counters_packet_out", "Pox.C13.table_counters_other", "Pox.C13.table_counters_rx", "Pox.C13.matched_le_lookup",
+                "Pox.C13.history_matched_le_lookup", "Pox.C13.step_noresubmit"]
     anchors = [("pox/datapaths/switch.py", "SoftwareSwitchBase." + m) for m in (
                    "__init__", "rx_message", "send", "_rx_hello", "_rx_echo_request", "_rx_features_request", "_rx_flow_mod", "_rx_packet_out",
                    "_rx_echo_reply", "_rx_barrier_request", "_rx_get_config_request", "_rx_stats_request", "_rx_set_config", "_rx_port_mod",
@@ -218,13 +222,20 @@ class C13(Check):
                   "each request answered completely before the next group starts, a barrier reply after the complete answers to everything earlier, traffic and connection-level "
                   "rejections interleaved); order/stream_concat/barrier_after alone are only the composition law of a left fold. errors_spec — each invalid port/queue/command/stats "
                   "type/vendor/action/buffer class maps to the error type and code of OpenFlow 1.0; rejected_answered — a message the connection rejects gets one error with ITS xid. "
-                  "history_ident/features_after_history/config_after_history — what features and get-config report after any history. dispatch_agrees/classes_agree/requests_handled — "
+                  "history_ident/features_after_history/config_after_history — what features and get-config report after any history. "
+                  "table_counters_packet_out / table_counters_other / table_counters_rx — the two OFPST_TABLE counters move by exactly the packets that reach the table, whichever way "
+                  "(a frame on a receiving port: one lookup; a packet_out: one per output:TABLE action it carries out, none for a dead buffer; no other message: none), matched_count by the "
+                  "same number when an entry matches the in_port; matched_le_lookup / history_matched_le_lookup — matched_count <= lookup_count after every mixed history. dispatch_agrees/classes_agree/requests_handled — "
                   "the model's tables equal those of the live switch object and every controller-to-switch type of the standard has a handler.")
     level_note = ("Proved about the model only; the model is tied to the code by (a) the `decide` obligations over data read off the live switch and (b) the correspondence run. "
-                  "`_partial` theorems: the model does not cover enqueue and output:TABLE (C12) and treats packet_out data as opaque (parsing/rewriting controller-chosen bytes is C12/C15); "
+                  "`_partial` theorems: InScope = no enqueue and no output:TABLE in the message's action list (C12); packet_out data is opaque (parsing/rewriting controller-chosen bytes is C12/C15). "
+                  "output:TABLE in a packet_out IS modelled (lookupPacket: lookup_count, first matching entry, matched_count, the entry's outputs resp. the table-miss packet_in) and covered by the "
+                  "table_counters theorems; still unmodelled: output:TABLE in a flow_mod's list and among the actions of a hit entry (NoResubmit is a hypothesis of history_events_partial, "
+                  "kept by every in-scope message: step_noresubmit). "
                   "never_fails_full states the unproved full claim. FlowsFit (every installed flow can be encoded in one reply part, action list <= 65435 bytes) is a hypothesis, an invariant "
-                  "of admissible histories (step_fit), and oversize_entry_fails shows it is needed. The data path is not modelled: its effect on counters/buffers is fed to the model as "
-                  "observed snapshots (Event.traffic); the theorems hold for every snapshot. Abstractions: matches are {all-wildcard, in_port=k}; actions are (type, output port, length); "
+                  "of admissible histories (step_fit), and oversize_entry_fails shows it is needed. The data path beyond the table lookup is not modelled: its effect on port / per-entry counters "
+                  "and buffers is fed to the model as observed snapshots (Event.traffic, Event.rx); the theorems hold for every snapshot. lookup_count / matched_count are NOT fed: the model "
+                  "counts them (a frame is Event.rx in_port: missing port / OFPPC_NO_RECV, else one lookup). Abstractions: matches are {all-wildcard, in_port=k}; actions are (type, output port, length); "
                   "malformed bodies beyond the connection-level rejection are C10's. The model follows the REPAIRED code: D9, D10, D27, C13-1, C13-2 committed; C13-3 = "
                   "fixes/C13-3_stats_reply_multipart.diff (a statistics body longer than a message is sent in parts). C13-4 committed; C13-5 = fixes/C13-5_flow_mod_too_many_actions.diff (an ADD/MODIFY "
                   "flow_mod whose flow could not be reported in a statistics reply is refused with BAD_ACTION/TOO_MANY: FlowsFit becomes an invariant of every history, step_fit); C13-6 = "
@@ -235,13 +246,20 @@ class C13(Check):
                     "harness/swnet.py byte-level node; the struct-based reply decoder in harness/c13.py"]
     assumptions = ["single-threaded datapath: one message is handled to completion before the next (cooperative tasks)",
                    "messages are well-formed encodings produced by the library's own classes (malformed input is C10)",
-                   "action lists do not contain enqueue or output:TABLE (C12); flow-mod matches are all-wildcard or in_port only (match semantics are C03/C04)",
-                   "data-plane traffic between the requests is an environment step: the counters and buffer occupancy it leaves are read off the real switch and handed to the model (how traffic moves them is C12/C04)"]
+                   "action lists do not contain enqueue; output:TABLE only in packet_out (the standard allows it nowhere else), never among a table entry's actions (C12); flow-mod matches are "
+                   "all-wildcard or in_port only (match semantics are C03/C04)",
+                   "data-plane frames of the histories are neither spanning-tree frames nor IP fragments (rx_packet's other receive checks are C12's)",
+                   "data-plane traffic between the requests is an environment step: the port / per-entry counters and buffer occupancy it leaves are read off the real switch and handed to the model "
+                   "(how traffic moves them is C12/C04); the table counters are predicted by model and oracle",
+                   "the in_port of a buffered packet is the one announced in the packet_in that handed the buffer id out (read from the wire)"]
     rule = ("case = (switch state: port set incl. deleted ports, buffer/table capacity; 1..40 messages of the 13 controller-to-switch types and 6+unknown stats types with arbitrary "
             "xids and valid/invalid ports, tables, queues, buffers, commands, actions; mode step = one push per message, batch = whole byte stream in random chunks, unique xids, "
             "replies paired by xid); interleaved: data-plane frames and packet_outs that move port/flow/table counters with the same statistics request repeated after them, and messages the "
             "connection itself rejects (unknown type, ill-sized / undecodable body, foreign version) at every position of a read; corpus = every request kind alone and after hello, "
             "every error class, orderings with barrier, poll-traffic-poll sequences, rejected messages first/middle/last, an 800-flow table (multipart reply); "
+            "table-counter family: every way a packet reaches the flow table (frame on a live / deleted / unknown / non-receiving port, packet_out output:TABLE carrying the packet or naming a "
+            "live / used / unknown buffer, one or several submissions per action list, an unsupported action in front or behind, flow_mod naming a buffer), hitting and missing, with table / "
+            "flow / aggregate statistics after each step; the oracle keeps its own lookup / matched / per-entry hit counts from the history (OpenFlow 1.0 ofp_table_stats); "
             "non-trivial = at least two different reply kinds or an error were produced")
 
     def translate(self):
@@ -403,12 +421,14 @@ class C13(Check):
         pool = live * 3 + st["deleted"] + [0, 99, 5, OFPP_MAX, OFPP_IN_PORT, OFPP_FLOOD, OFPP_ALL, OFPP_CONTROLLER, OFPP_LOCAL, OFPP_NONE, rng.randint(0, U16)]
         return rng.choice(pool)
 
-    def _acts(self, rng, st, allow_ctl=True, unsupported=0.15):
+    def _acts(self, rng, st, allow_ctl=True, unsupported=0.15, table=0.0):
+        """`table`: share of output:OFPP_TABLE actions (only a packet_out may carry them, OpenFlow 1.0 5.2.1)"""
         n = rng.choice([0, 1, 1, 2, 3, rng.randint(0, 6)])
         out = []
         for _ in range(n):
             r = rng.random()
-            if r < 0.45:
+            if table and rng.random() < table: out.append([0, OFPP_TABLE])
+            elif r < 0.45:
                 p = self._port_choice(rng, st)
                 if p == OFPP_TABLE: p = OFPP_NORMAL
                 if p == OFPP_CONTROLLER and not allow_ctl: p = OFPP_FLOOD
@@ -448,7 +468,8 @@ class C13(Check):
             bid = None
             if mode == "buf":
                 bid = rng.choice([ctx["handed"], ctx["handed"], 1, 0, st["max_buffers"] + 1, rng.randint(0, 5), U32 - 1]) if rng.random() < 0.85 else None
-            m.update(bid=bid, data=(mode == "data"), acts=self._acts(rng, st, allow_ctl=buffers), in_port=rng.choice([OFPP_NONE, 1, 2]))
+            m.update(bid=bid, data=(mode == "data"), acts=self._acts(rng, st, allow_ctl=buffers, table=rng.choice([0.0, 0.0, 0.25, 0.5])),
+                     in_port=rng.choice([OFPP_NONE, 1, 2] + ([self._port_choice(rng, st) % OFPP_MAX] if rng.random() < 0.3 else [])))
             ctx["handed"] += sum(1 for a in m["acts"] if a == [0, OFPP_CONTROLLER]) if (m["data"] and st["max_buffers"] > ctx["handed"]) else 0
         elif k == "flow_mod":
             bid = None
@@ -534,12 +555,58 @@ class C13(Check):
             out.insert(rng.choice([0, len(out), len(out) // 2, rng.randint(0, len(out))]), self.gen_bad(rng))
         return out
 
-    def gen_case(self, rng, n, mode, buffers=True, unhandled=False, focus=False):
+    def gen_table_msgs(self, rng, st, n, mode):
+        """every way a packet reaches the flow table (a frame on a port; packet_out output:TABLE carrying the packet or naming
+        a buffer; flow_mod naming a buffer), mixed with what decides whether it does (port_mod NO_RECV, deleted / unknown
+        ports, dead buffers, an unsupported action in front) and whether it hits (flow_mods), and with the statistics
+        requests that report the counts"""
+        live = [p for p in st["ports"] if p not in st["deleted"]] or [1]
+        inports = live * 3 + st["deleted"] + [OFPP_NONE, OFPP_NONE, 99, 0]
+        outs = live + [OFPP_FLOOD, OFPP_CONTROLLER, OFPP_IN_PORT, OFPP_ALL]
+        x = lambda: self._xid(rng)
+        def flow(cmd=None):
+            return self._fm(x(), rng.choice([0, 0, 0, 0, 1, 2, 3, 4]) if cmd is None else cmd, rng.choice([None] + live + [rng.choice(inports)]),
+                            rng.choice([1, 2, 3, 0x8000]), flags=rng.choice([0, 0, 1]), acts=[(0, rng.choice(outs)) for _ in range(rng.choice([0, 1, 1, 2]))])
+        tbl = lambda: {"k": "stats_request", "xid": x(), "st": "table"}
+        allf = lambda kind: {"k": "stats_request", "xid": x(), "st": kind, "mkey": None, "table_id": rng.choice([0, 0xff]), "out_port": OFPP_NONE}
+        def via_table():
+            acts = [[0, OFPP_TABLE]]
+            r = rng.random()
+            if r < 0.15: acts = [[0, OFPP_TABLE], [0, OFPP_TABLE]]
+            elif r < 0.3: acts = [[rng.choice([1, 3, 5, 9]), 7], [0, OFPP_TABLE], [0, rng.choice(outs)]]
+            elif r < 0.4: acts.insert(rng.choice([0, 1]), [rng.choice([0xffff, 12, 100]), 5])        # a type without handler in front of / behind it
+            elif r < 0.45: acts = [[0, rng.choice(outs)]]
+            m = {"k": "packet_out", "xid": x(), "bid": None, "data": True, "in_port": rng.choice(inports), "acts": acts}
+            if mode == "step" and rng.random() < 0.35: m.update(data=False, bid=rng.choice([1, 1, 2, 2, 3, 0, st["max_buffers"] + 1]))
+            return m
+        msgs = [flow(0) for _ in range(rng.choice([0, 1, 2, 3]))]
+        for _ in range(n):
+            r = rng.random()
+            if r < 0.3: msgs.append(via_table())
+            elif r < 0.45 and mode == "step":
+                t = self.gen_traffic(rng, st); t["port"] = rng.choice(inports[:-4] + [99])
+                msgs.append(t)
+            elif r < 0.62: msgs.append(tbl())
+            elif r < 0.72: msgs.append(allf(rng.choice(["flow", "aggregate"])))
+            elif r < 0.82:
+                m = flow()
+                if mode == "step" and rng.random() < 0.3: m["bid"] = rng.choice([1, 2, 3])
+                msgs.append(m)
+            elif r < 0.88:
+                p = rng.choice(live)
+                msgs.append({"k": "port_mod", "xid": x(), "port": p, "hw": self.hw_of(st, p), "config": rng.choice([0, 4, 64, 68, 0x7f]), "mask": rng.choice([4, 4, 64, 68, 0x7f])})
+            elif r < 0.92: msgs.append({"k": "barrier_request", "xid": x()})
+            else: msgs.append(self.gen_msg(rng, st, {"handed": 0}, buffers=False))
+        return msgs + [tbl(), allf("flow")]
+
+    def gen_case(self, rng, n, mode, buffers=True, unhandled=False, focus=False, table=False):
         st = copy.deepcopy(rng.choice(self.STATES + [self.STATES[0]] * 3))
         if rng.random() < 0.3:
             st["max_buffers"] = rng.choice([0, 1, 2, 100]); st["max_entries"] = rng.choice([0, 1, 2, 5, 0x7fffffff])
         ctx = {"handed": 0}
-        if focus:
+        if table:
+            msgs = self.gen_table_msgs(rng, st, n, mode)
+        elif focus:
             # installs flows with physical and virtual output ports, then reads flow / aggregate / table statistics filtered on them
             st = copy.deepcopy(self.STATES[0])
             if rng.random() < 0.2: st["max_entries"] = rng.choice([2, 3, 5])
@@ -694,6 +761,7 @@ class C13(Check):
                      {"k": "set_config", "xid": 4, "flags": 1, "miss": 0}, {"k": "get_config_request", "xid": 5}, ps(6, OFPP_NONE), tbl, fl, bar(7), {"k": "features_request", "xid": 8}])
             one(st, [{"k": "get_config_request", "xid": 2}, {"k": "features_request", "xid": 1}], "batch")
         cases += self.corpus_hardening(S, fm, bar, ps, po, tr, tbl, fl, ag)
+        cases += self.corpus_table_counters(S, fm, bar, tr, tbl, fl)
         for _ in range(40):
             cases.append(self.gen_case(rng, rng.randint(1, 6), "step"))
         return cases
@@ -812,6 +880,52 @@ class C13(Check):
         one(S[0], a, other={"state": copy.deepcopy(S[0]), "mode": "step", "msgs": copy.deepcopy(a[4:] + a[:4])})
         return cases
 
+    def corpus_table_counters(self, S, fm, bar, tr, tbl, fl):
+        """OFPST_TABLE after every way a packet reaches the table, hitting and missing, and after every way it does not"""
+        cases = []
+        def one(st, msgs, mode="step"):
+            msgs = [copy.deepcopy(m) for m in msgs]
+            for i, m in enumerate(msgs):
+                if m["k"] != "traffic": m["xid"] = 3000 + i
+            c = {"state": copy.deepcopy(st), "mode": mode, "msgs": msgs}
+            if mode == "batch": c["cuts"] = []
+            cases.append(c)
+        T = OFPP_TABLE
+        def pt(in_port, acts=((0, T),), bid=None):
+            return {"k": "packet_out", "xid": 0, "bid": bid, "data": bid is None, "in_port": in_port, "acts": [list(a) for a in acts]}
+        aga = {"k": "stats_request", "xid": 0, "st": "aggregate", "mkey": None, "table_id": 0xff, "out_port": OFPP_NONE}
+        hw = lambda st, p: self.hw_of(st, p)
+        pm = lambda st, p, config, mask: {"k": "port_mod", "xid": 0, "port": p, "hw": hw(st, p), "config": config, "mask": mask}
+        f1 = fm(0, 0, 1, 100, acts=[(0, 2)], ck=0xF1)
+        seqs = [
+            # frames on ports (hit, miss), then the controller's own packets through the table, then all three statistics
+            [f1, tr(1), tr(3), tbl, pt(1), pt(1), pt(1), bar(0), tbl, fl, aga],
+            [f1, pt(1), tbl, pt(2), tbl, pt(OFPP_NONE), tbl, pt(99), tbl, fl, aga],
+            [tbl, pt(1), tbl, pt(OFPP_NONE), pt(OFPP_NONE), tbl, f1, pt(1), tbl, fm(0, 3, None, 0), pt(1), tbl, fl],
+            # several submissions in one action list; other actions around it; a type without handler in front of / behind it
+            [f1, pt(1, ((0, T), (0, T))), tbl, pt(1, ((1, 5), (0, T), (0, 3), (0, T), (3, 0))), tbl, pt(1, ((0xffff, 9), (0, T))), tbl,
+             pt(1, ((0, T), (12, 0), (0, T))), tbl, pt(1, ()), pt(1, ((0, 2),)), tbl, aga],
+            # the packet is in a buffer: a miss on port 3 stores it (id 1, in_port 3); through the table it misses again (id 2), after
+            # an entry for port 3 exists it hits; a used or unknown id submits nothing
+            [tr(3), tbl, pt(7, bid=1), tbl, fm(0, 0, 3, 5, acts=[(0, 1)], ck=0xF3), pt(7, bid=2), tbl, pt(7, bid=2), pt(7, bid=9), pt(7, bid=0), tbl, fl, aga],
+            [pt(2), tbl, pt(1, bid=1), tbl, fm(0, 0, None, 1, acts=[(0, OFPP_CONTROLLER)], ck=0xF4), pt(1, bid=2), tbl, pt(4, bid=1), tbl, fl, aga],
+            # a flow_mod naming a buffer applies ITS actions to the stored packet
+            [tr(3), tr(4), tbl, fm(0, 0, 3, 5, acts=[(0, 1)], ck=0xF5) | {"bid": 1}, tbl, fl, fm(0, 1, 3, 5, acts=[(0, 2)], ck=0xF5) | {"bid": 2}, tbl,
+             fm(0, 3, None, 0) | {"bid": 1}, tbl, tr(3), tbl, fl, aga],
+            # what is not looked up: the port does not receive, does not exist (any more)
+            [f1, tr(1), tbl, pm(S[0], 1, 4, 4), tr(1), tr(1), tbl, pt(1), tbl, pm(S[0], 1, 0, 4), tr(1), tbl, tr(99), tr(0), tbl, pm(S[0], 2, 64, 64), tr(2), pt(2), tbl, fl, aga],
+            # the hit entry sends to the controller / floods; entries of equal priority; an entry for another port only
+            [fm(0, 0, None, 7, acts=[(0, OFPP_CONTROLLER)], ck=0xF6), pt(1), tr(2), tbl, pt(3, bid=1), pt(3, bid=2), tbl, fm(0, 0, 2, 7, acts=[(0, OFPP_FLOOD)], ck=0xF7),
+             tr(2), pt(2), tbl, fm(0, 4, None, 7), pt(1), pt(2), tr(1), tr(2), tbl, fl, aga],
+        ]
+        for sq in seqs:
+            one(S[0], sq)
+            if not any(m["k"] == "traffic" or m.get("bid") is not None for m in sq): one(S[0], sq, "batch")
+        # a deleted port (3) and few buffers (2); no buffers at all
+        one(S[2], [fm(0, 0, None, 1, acts=[(0, 7)], ck=1), tr(3), tr(2), tbl, pt(3), pt(2), tbl, fm(0, 3, None, 0), tr(2), tr(7), pt(2), pt(7), pt(3), tbl, pt(2, bid=1), pt(2, bid=2), tbl, aga])
+        one(dict(S[0], max_buffers=0), [tr(1), pt(1), pt(OFPP_NONE), tbl, pt(1, bid=1), tbl, f1, tr(1), pt(1), tbl, aga])
+        return cases
+
     def generate(self, rng, tier):
         n = 1500 if tier == "quick" else 30000
         for i in range(n):
@@ -819,6 +933,7 @@ class C13(Check):
             r = rng.random()
             if i % 100 == 7: yield self.gen_fat(rng, self._fm, rng.choice(["step", "batch"]))
             elif i % 5 == 0: yield self.gen_case(rng, max(L, 4), rng.choice(["step", "step", "batch"]), focus=True)
+            elif i % 5 == 2: yield self.gen_case(rng, max(L, 4), rng.choice(["step", "step", "step", "batch"]), table=True)
             elif r < 0.45: yield self.gen_case(rng, L, "step", buffers=False, unhandled=(rng.random() < 0.3))
             elif r < 0.65:
                 c = self.gen_case(rng, L, "step", buffers=True)
@@ -966,16 +1081,25 @@ class C13(Check):
 
     # ------------------------------------------------------------------ model
 
-    _MODEL_KEYS = {"k", "xid", "body", "vendor", "flags", "miss", "port", "hw", "config", "mask", "bid", "data", "acts", "cmd", "mkey", "prio", "cookie",
+    _MODEL_KEYS = {"k", "xid", "body", "vendor", "flags", "miss", "port", "hw", "config", "mask", "bid", "data", "acts", "cmd", "mkey", "prio", "cookie", "in_port",
                    "idle", "hard", "out_port", "st", "table_id", "queue", "stype", "ty"}
 
     def model_request(self, case):
         return None          # see model_request2: the data path is not modelled, its observed counters are fed to the model
 
     @staticmethod
-    def _sync(snap, buffers, flows=True):
-        return {"k": "traffic", "xid": 0, "ports": snap["ports"], "flows": [[f[3], f[4]] for f in snap["flows"]] if flows else [], "lookup": snap["lookup"],
-                "matched": snap["matched"], "buffers": snap["buffers"] if buffers else None}
+    def _sync(snap, buffers, flows=True, rx=None):
+        """port / per-entry counters and buffer occupancy as the data path left them.  The table counters (lookup_count,
+        matched_count) are NOT handed over: the model counts the lookups itself.  rx = in_port: one frame arrived there."""
+        e = {"k": "traffic", "xid": 0, "ports": snap["ports"], "flows": [[f[3], f[4]] for f in snap["flows"]] if flows else [],
+             "buffers": snap["buffers"] if buffers else None}
+        if rx is not None: e.update(k="rx", in_port=rx)
+        return e
+
+    @staticmethod
+    def _out_groups(case, obs):
+        """what was written per op (step mode only)"""
+        return [g["out"] for g in obs["groups"]] if obs["mode"] == "step" else None
 
     def effective(self, case):
         """the history the switch has seen completely: with `drop_tail` the last message is still in flight"""
@@ -1005,21 +1129,40 @@ class C13(Check):
         snaps = self.op_snaps(case, obs)
         if snaps is None: return None
         evs, starting, prev = [], True, obs["init"]
-        for m, snap in zip(case["msgs"], snaps):
-            # flow counters move only when packets do: the per-entry list is sent only when port / lookup counters moved
-            moved = (snap["ports"], snap["lookup"], snap["matched"]) != (prev["ports"], prev["lookup"], prev["matched"])
-            prev = snap
+        outs = self._out_groups(case, obs)
+        bufin = {}                                   # buffer id -> in_port of the packet stored under it, as announced in the packet_in
+        tot = lambda sn: (sn["ports"], sum(f[3] for f in sn["flows"]), sum(f[4] for f in sn["flows"]))
+        prev = tot(prev)
+        for i, (m, snap) in enumerate(zip(case["msgs"], snaps)):
+            # flow counters move only when packets do: the per-entry list is sent only when port / entry counter totals moved
+            cur = tot(snap)
+            moved = cur != prev
+            prev = cur
             k = m["k"]
             if k == "traffic":
-                evs.append(self._sync(snap, True)); continue
+                if obs["mode"] == "step":
+                    evs.append(self._sync(snap, True, rx=m["port"]))
+                    for r in outs[i]:
+                        if r["t"] == "packet_in" and r["bid"] is not None: bufin[r["bid"]] = r.get("inp", OFPP_NONE)
+                else: evs.append(self._sync(snap, True))         # batch mode does not run the data plane
+                continue
             if k == "bad":
                 if m["why"] == "version": evs.append({"k": "bad_version", "xid": m["xid"], "starting": starting})
                 else: evs.append({"k": "rejected", "xid": m["xid"], "code": 1 if m["why"] == "type" else 6})
             else:
                 e = {kk: v for kk, v in m.items() if kk in self._MODEL_KEYS}
                 if "acts" in e: e["acts"] = [[a[0], a[1], self.acts_len([a])] for a in e["acts"]]
+                if k == "packet_out":
+                    # the in_port the packet is processed with: the message's own, or the one stored with the buffered packet
+                    if m["data"] or m["bid"] is None: e["in_port"] = m.get("in_port", OFPP_NONE)
+                    elif outs is not None: e["in_port"] = bufin.get(m["bid"], OFPP_NONE)
+                    elif any(a[:2] == [0, OFPP_TABLE] for a in m["acts"]): return None      # batch mode: which packet_in handed the id out is not known
+                    else: e["in_port"] = OFPP_NONE
                 evs.append(e)
                 starting = False
+            if outs is not None:
+                for r in outs[i]:
+                    if r["t"] == "packet_in" and r["bid"] is not None: bufin[r["bid"]] = r.get("inp", OFPP_NONE)
             evs.append(self._sync(snap, False, flows=moved))       # counters as the data path left them (packet_out / buffered packets move them)
         try:
             st = self.model_state(case["state"])
@@ -1041,12 +1184,12 @@ class C13(Check):
 
     @staticmethod
     def _strip(r):
-        return {k: v for k, v in r.items() if k != "data"}
+        return {k: v for k, v in r.items() if k not in ("data", "inp")}
 
     def impl_view(self, case, obs):
         case = self.effective(case)
         if obs["mode"] == "step":
-            return {"groups": [({"out": []} if m["k"] == "traffic" else {"fail": g["exc"][0], "sent": sum(1 for r in g["out"] if r["t"] not in ASYNC)} if g["exc"] else {"out": [self._strip(r) for r in g["out"]]})
+            return {"groups": [({"fail": g["exc"][0], "sent": sum(1 for r in g["out"] if r["t"] not in ASYNC)} if g["exc"] else {"out": [self._strip(r) for r in g["out"]]})
                                for m, g in zip(case["msgs"], obs["groups"])], "final": obs["final"]}
         return {"stream": [self._strip(r) for r in obs["stream"]], "final": obs["final"]}
 
@@ -1058,7 +1201,10 @@ class C13(Check):
         k, x = m["k"], m["xid"]
         tag = k
         if k in ("unhandled", "traffic"):
-            return None                                                 # outside the 13 controller-to-switch types / not a message
+            # outside the 13 controller-to-switch types / not a message.  A decodable message of another type has been accepted by
+            # the connection all the same: the version negotiation is over (HELLO_FAILED is for a foreign version at the very start)
+            if k == "unhandled": ctx["starting"] = False
+            return None
         snap = ctx.get("snap")                                          # counters at the moment of this request (None = unknown)
         if k == "bad":
             tag = "bad-message:%s" % m["why"]
@@ -1154,6 +1300,7 @@ class C13(Check):
         if k == "port_mod":
             if m["port"] not in live_ports: tag = "port_mod:unknown-port"; return one(is_err(4, 0), "PORT_MOD_FAILED/BAD_PORT")
             if m["hw"] != ctx["hw"].get(m["port"]): tag = "port_mod:bad-hw"; return one(is_err(4, 1), "PORT_MOD_FAILED/BAD_HW_ADDR")
+            if m["mask"] & 4: ctx["norecv"][m["port"]] = bool(m["config"] & 4)      # OFPPC_NO_RECV: "drop all packets received by port"
             return silent("accepted port_mod")
         if k == "stats_request":
             st = m["st"]
@@ -1168,8 +1315,9 @@ class C13(Check):
             if st == "table":
                 return one(body_is("table", lambda b: "max-entries-differs" if b["v"][0] != ctx["state"]["max_entries"] else
                                    ("active-count-differs | installed %d" % len(ctx["table"].flows) if b["v"][1] != len(ctx["table"].flows) else
-                                    ("lookup-matched-counters-stale | switch has %s" % [snap["lookup"], snap["matched"]]
-                                     if snap is not None and b["v"][2:] != [snap["lookup"], snap["matched"]] else None))), "table reply")
+                                    (self._tc_check_table(ctx, b["v"][2], b["v"][3]) or
+                                     ("lookup-matched-counters-stale | switch has %s" % [snap["lookup"], snap["matched"]]
+                                      if snap is not None and b["v"][2:] != [snap["lookup"], snap["matched"]] else None)))), "table reply")
             if st in ("flow", "aggregate"):
                 foreign = m["table_id"] not in (0, 0xff)
                 if foreign: tag += ":foreign-table"
@@ -1184,10 +1332,19 @@ class C13(Check):
                     for e in snap["flows"]: pool.setdefault((e[0], e[1], e[2]), []).append((e[3], e[4]))
                     try: ctrs = sorted((f["prio"], f["cookie"], -1 if f["mkey"] is None else f["mkey"]) + pool[(f["prio"], f["cookie"], f["mkey"])].pop(0) for f in want)
                     except (KeyError, IndexError): ctrs = None
+                whole = m["mkey"] is None and not foreign and m["out_port"] == OFPP_NONE
+                def hits(total):
+                    P = ctx["tc"]["P"]
+                    if whole and not self._tc_in(P, total):
+                        return "packet-counts-differ | the installed entries were hit %d..%s times, reply adds up to %d" % (P[0], "" if P[1] is None else P[1], total)
+                    if whole: ctx["tc"]["P"] = [total, total]
+                    return None
                 if st == "flow":
                     def chk(b):
                         if foreign and b["l"]: return "flows-for-foreign-table"
                         if key(b["l"]) != key(exp): return "flow-list-differs:%s | expected (priority, cookie, in_port) %s" % (flt, exp)
+                        h = hits(sum(e[3] for e in b["l"]))
+                        if h: return h
                         if ctrs is not None and sorted((e[0], e[1], -1 if e[2] is None else e[2], e[3], e[4]) for e in b["l"]) != ctrs:
                             return "flow-counters-stale | switch has %s" % ctrs
                         return None
@@ -1195,6 +1352,8 @@ class C13(Check):
                 def chka(b):
                     if foreign and b["n"]: return "nonzero-for-foreign-table"
                     if b["n"] != len(want): return "flow-count-differs:%s | expected %d" % (flt, len(want))
+                    h = hits(b["packets"])
+                    if h: return h
                     if ctrs is not None and [b["packets"], b["bytes"]] != [sum(c[3] for c in ctrs), sum(c[4] for c in ctrs)]:
                         return "aggregate-counters-stale | switch has %s" % [sum(c[3] for c in ctrs), sum(c[4] for c in ctrs)]
                     return None
@@ -1251,7 +1410,9 @@ class C13(Check):
                     if codes == [(2, 7)]: return None
                     return "flow_mod:too-many-actions:%s | %d bytes of actions, expected BAD_ACTION/TOO_MANY, got %s" % (
                         "installed-silently" if not codes else "wrong-error", self.acts_len(m["acts"]), codes)
+                before = list(ctx["table"].flows)
                 ok_codes, notify = ctx["table"].flow_mod(m)
+                self._tc_removed(ctx, before)
                 name = lambda cs: "none" if not cs else "+".join("%d-%d" % c for c in sorted(cs))
                 if ok_codes is None:
                     if fmc: return "flow_mod:%s:refused-%s | the standard accepts this flow_mod; installed now %d of %d" % (cmdname, name(fmc), len(ctx["table"].flows), ctx["table"].capacity)
@@ -1270,6 +1431,7 @@ class C13(Check):
             elif ctx["live"] is not None:
                 executed = m["bid"] in ctx["live"]
                 if executed:
+                    self._tc_actions(ctx, m, True)
                     ctx["live"].discard(m["bid"]); ctx.setdefault("used", set()).add(m["bid"])
                 else:
                     # already used ↦ BUFFER_EMPTY (1/7), never handed out ↦ BUFFER_UNKNOWN (1/8)
@@ -1278,12 +1440,69 @@ class C13(Check):
                         return "%s:unknown-buffer:%s | buffer_id=%d, expected BAD_REQUEST/%s, got %s" % (
                             k, "silent" if not codes else "wrong-error", m["bid"], "BUFFER_EMPTY" if want[1] == 7 else "BUFFER_UNKNOWN", codes)
                     return None
+            if not (executed and m["bid"] is not None and not (k == "packet_out" and m["data"])): self._tc_actions(ctx, m, executed)
             if executed is False and codes: return "%s:unexpected-error | %s" % (k, codes)
             if executed and unsupported and codes != [(2, 0)]:
                 return "%s:unsupported-action:%s | expected BAD_ACTION/BAD_TYPE got %s" % (k, "no-reply" if not codes else "wrong-error", codes)
             if executed and not unsupported and codes: return "%s:unexpected-error | %s" % (k, codes)
             return None
         return "harness: unknown kind %s" % k
+
+    # -- the oracle's own OFPST_TABLE counters (OpenFlow 1.0 ofp_table_stats: lookup_count = "number of packets looked up in
+    #    table", matched_count = "number of packets that hit table"), kept as ranges [lo, hi] (hi None = no upper bound) so that
+    #    only what the standard fixes is demanded; "P" = sum of the packet counts of the installed entries
+
+    @staticmethod
+    def _tc_add(T, key, lo, hi):
+        T[key][0] += lo
+        T[key][1] = None if (T[key][1] is None or hi is None) else T[key][1] + hi
+
+    def _tc_lookup(self, ctx, in_port, lo=1, hi=1):
+        """between lo and hi packets that came in on in_port (None = not known) are looked up in the table now"""
+        flows = ctx["table"].flows
+        cand = flows if in_port is None else [f for f in flows if f["mkey"] is None or f["mkey"] == in_port]
+        hit_sure = in_port is not None and bool(cand)
+        if any(OFPP_TABLE in f["outs"] for f in cand): hi = None               # an entry that re-submits: no bound from the standard
+        T = ctx["tc"]
+        self._tc_add(T, "L", lo, hi)
+        for key in ("M", "P"):
+            self._tc_add(T, key, lo if hit_sure else 0, hi if cand else 0)
+
+    def _tc_actions(self, ctx, m, executed):
+        """table submissions of a packet_out / flow_mod whose actions are (True) / may be (None) carried out"""
+        if executed is False: return
+        n = 0
+        stopped = False
+        for a in m["acts"]:
+            if not (0 <= a[0] <= 11): stopped = True; break                     # processing ends at an action type without handler
+            if a[0] == 0 and a[1] == OFPP_TABLE: n += 1
+        if m["k"] == "packet_out" and m["data"]: in_port = m.get("in_port", OFPP_NONE)
+        else: in_port = ctx["bufin"].get(m["bid"]) if ctx["live"] is not None else None
+        sure = executed is True and not stopped and m["k"] == "packet_out"       # (whether the actions in front of an unsupported one are carried out is not fixed)
+        if n: self._tc_lookup(ctx, in_port, n if sure else 0, n)
+        if m["k"] == "flow_mod":
+            # the standard says the buffered packet is what the flow_mod "applies to"; whether that counts as a table lookup it leaves open
+            self._tc_lookup(ctx, in_port, 0, 1)
+
+    def _tc_removed(self, ctx, before):
+        """entries left the table (deleted or replaced by an ADD): their packet counts are gone from the sum"""
+        now = {id(g) for g in ctx["table"].flows}
+        if any(id(f) not in now for f in before): ctx["tc"]["P"][0] = 0
+
+    @staticmethod
+    def _tc_in(rng, v):
+        return rng[0] <= v and (rng[1] is None or v <= rng[1])
+
+    def _tc_check_table(self, ctx, lookup, matched):
+        T = ctx["tc"]
+        say = lambda r: "%d" % r[0] if r[0] == r[1] else "%d..%s" % (r[0], "" if r[1] is None else r[1])
+        if not self._tc_in(T["L"], lookup):
+            return "lookup-count-differs | %s packets were looked up in the table (frames on receiving ports + output:TABLE submissions), reply says %d" % (say(T["L"]), lookup)
+        if not self._tc_in(T["M"], matched):
+            return "matched-count-differs | %s packets hit an entry, reply says %d" % (say(T["M"]), matched)
+        if matched > lookup: return "matched-exceeds-lookup | lookup_count=%d matched_count=%d" % (lookup, matched)
+        T["L"], T["M"] = [lookup, lookup], [matched, matched]
+        return None
 
     def oracle(self, case, obs):
         f = self._oracle_one(self.effective(case), obs)
@@ -1298,7 +1517,8 @@ class C13(Check):
             return "switch-construction:internal-failure:%s | state %s" % (obs["construct_failure"], {k: v for k, v in st.items() if k != "ports"})
         live_ports = [p for p in st["ports"] if p not in st["deleted"]]
         ctx = {"hello": False, "config": (0, self.spec_miss(st)), "ports": live_ports, "stat_ports": list(st["ports"]), "state": st, "table": SpecTable(st["max_entries"]),
-               "hw": self._hw_cache(st), "live": set() if case["mode"] == "step" else None, "starting": True, "snap": obs.get("init")}
+               "hw": self._hw_cache(st), "live": set() if case["mode"] == "step" else None, "starting": True, "snap": obs.get("init"),
+               "tc": {"L": [0, 0], "M": [0, 0], "P": [0, 0]}, "bufin": {}, "norecv": {p: bool(c & 4) for p, c in self._cfg_cache(st).items()}}
         raws = [self.to_bytes(m) for m in case["msgs"]]
         closing = bool(case["msgs"]) and case["msgs"][-1]["k"] == "bad" and case["msgs"][-1].get("why") == "version"
         if closing:
@@ -1309,8 +1529,10 @@ class C13(Check):
             if len(obs["groups"]) != len(case["msgs"]): return "harness: group count"
             for m, g, raw in zip(case["msgs"], obs["groups"], raws):
                 if m["k"] == "traffic":
+                    # a frame on a port the switch has and that receives is looked up once; on any other port not at all
+                    if m["port"] in live_ports and not ctx["norecv"].get(m["port"]): self._tc_lookup(ctx, m["port"])
                     for r in g["out"]:
-                        if r["t"] == "packet_in" and r["bid"] is not None: ctx["live"].add(r["bid"])
+                        if r["t"] == "packet_in" and r["bid"] is not None: ctx["live"].add(r["bid"]); ctx["bufin"][r["bid"]] = r.get("inp")
                     ctx["snap"] = g["snap"]
                     continue
                 if g["st"] != "ok" and not (closing and m is case["msgs"][-1] and g["st"] == "closed"): return "%s:connection-%s" % (m["k"], g["st"])
@@ -1318,7 +1540,7 @@ class C13(Check):
                 R = [r for r in g["out"] if r["t"] not in ASYNC]
                 f = self._check_request(m, R, raw, ctx, g["exc"], asyncs=[r for r in g["out"] if r["t"] in ASYNC])
                 for r in g["out"]:
-                    if r["t"] == "packet_in" and r["bid"] is not None: ctx["live"].add(r["bid"])
+                    if r["t"] == "packet_in" and r["bid"] is not None: ctx["live"].add(r["bid"]); ctx["bufin"][r["bid"]] = r.get("inp")
                 ctx["snap"] = g["snap"]
                 if f: return f
             return None
@@ -1342,7 +1564,9 @@ class C13(Check):
             groups[i].append(r)
         n_unh = sum(1 for m in case["msgs"] if m["k"] == "unhandled")
         exc = [e for e in obs["exc"] if e != "RuntimeError"] if n_unh else obs["exc"]
-        for i, m in reqs:
+        for i, m in enumerate(case["msgs"]):
+            if m["k"] == "unhandled":
+                ctx["starting"] = False; continue
             ctx["snap"] = (obs["init"] if i == 0 else snaps[i - 1]) if snaps is not None else None
             f = self._check_request(m, groups[i], raws[i], ctx, [])
             if f:
@@ -1359,6 +1583,18 @@ class C13(Check):
             try:
                 node = self.make_node({**st, "deleted": [], "features": None})
                 c[key] = {p.port_no: int.from_bytes(p.hw_addr.toRaw(), "big") for p in node.sw.ports.values()}
+            except Exception:
+                c[key] = {}
+        return c[key]
+
+    def _cfg_cache(self, st):
+        """initial config bits of the ports, read off a freshly built switch"""
+        key = (st.get("dpid", 1), tuple(st["ports"]))
+        c = self.__dict__.setdefault("_cfgc", {})
+        if key not in c:
+            try:
+                node = self.make_node({**st, "deleted": [], "features": None})
+                c[key] = {p.port_no: int(p.config) for p in node.sw.ports.values()}
             except Exception:
                 c[key] = {}
         return c[key]
